@@ -30,6 +30,16 @@ its own PairingConfig and a recording delegate driven by two simulated users. Mo
             everything in flight was delivered) or a few loop turns (between two protocol messages), on either
             side; a refusal, however late, ends in failure on both sides, no stored keys, no encrypted link, and
             nobody reports completion while its own user still looks at a prompt
+  history   several bonds of the same two devices one after the other on the SAME key stores (legacy then SC, SC then
+            legacy, legacy twice with another key distribution, SC twice, three in a row; link roles kept or swapped
+            between the pairings; SMP initiated by the link Central or Peripheral), each on a connection of its own, on
+            the real JsonKeyStore (temp file), on the check's serialising store with JsonKeyStore's field-by-field
+            merge, on MemoryKeyStore, and with a different store on each side; then a reconnection in BOTH role
+            assignments: the key in the central's LE Enable Encryption command == the key the peripheral host answers
+            for that EDIV / Rand == the key of the LATEST bond (SC: f5(...) recomputed from the wire of the last
+            pairing; legacy: the LTK today's Peripheral distributed in the last pairing, with its EDIV / Rand). Keys:
+            reconnect/bond-history/<clause>/<last bond>-after-<the one before>/<merging-store|replacing-store|
+            stores-differ>
   again     further pairings on the SAME connection (after a refused/failed one, after a completed one): judged
             by the same oracles; keys carry the suffix /again-after-<previous outcome>
 """
@@ -52,7 +62,10 @@ RULE = ('one case = one pairing of two independently configured devices (plus re
         'Peripheral as SMP initiator and via Security Request; think: every model x {legacy, SC} x initiator link role '
         'x every answer (honest + each refusal by either user) x 5 think-time patterns (answering user late by '
         'seconds / by loop turns, the other user late, both late); again: every model x initiator x (X then honest, '
-        'honest then X, X then X then honest) on one connection; a case is non-trivial when phase 2 was '
+        'honest then X, X then X then honest) on one connection; bondhist: 6 sequences of bond kinds (2-3 bonds) x link '
+        'roles kept / swapped between the pairings x 5 store combinations (JsonKeyStore file, merging, memory, mixed) x '
+        'order of the two reconnections, key distribution and SMP initiator per bond by enumeration, association '
+        'model seeded; a case is non-trivial when phase 2 was '
         'reached on the wire or a refusal was actually given; distinct = distinct descriptor without seed')
 ASSUMPTIONS = [
     'the two users are honest: the typed passkey is the one displayed on the other device (or the agreed one '
@@ -60,6 +73,13 @@ ASSUMPTIONS = [
     'says otherwise',
     'the application on the central answers a Security Request by calling pair()',
     'key stores are bumble.keys.MemoryKeyStore, in 40% of the cases behind a to_dict/JSON/from_dict round trip as a JsonKeyStore would do; identity address type = the random static address used on air',
+    'bond histories: a later bond of the same two devices replaces the earlier one: after it the only key for the '
+    'central\'s encryption request is the latest bond\'s. The check\'s own merging store keeps every field of the older '
+    'record (plain dict.update, what JsonKeyStore.update does): next to a newer SC LTK the legacy slots are dead weight '
+    'for a stack that prefers the SC LTK on both sides, but a stale SC LTK next to newer legacy keys would be that '
+    'store\'s doing, so histories that END in a legacy bond run on bumble\'s own stores (JsonKeyStore, MemoryKeyStore) '
+    'only; slot-by-slot store oracles (which slots a record has) apply to the first bond only, later bonds are judged '
+    'by what the stores yield on reconnection',
     'reconnection is judged only where a key for that direction was distributed (legacy: the future '
     'peripheral distributed its LTK); SMP over BR/EDR runs with link encryption set by the harness and link '
     'keys preloaded, as tests/self_test.py::test_self_smp_over_classic does',
@@ -86,7 +106,15 @@ MIN_EVENTS = {
               'security_request_table_cells': 200, 'hardware_prompt_checks': 11000, 'think_time_cases': 2000,
               'late_refusal_cases': 350, 'refusal_with_late_peer_cases': 90, 'late_honest_answers_paired': 1300,
               'answers_given_after_think_time': 2800, 'not_encrypted_after_failure_checks': 1000,
-              'further_attempts_on_same_connection': 450},
+              'further_attempts_on_same_connection': 450,
+              # bond histories on one store
+              'bond_history_cases': 90, 'bond_history_pairings': 200, 'bond_history_reconnect_checks': 150,
+              'bond_history_shared_key_checks': 150, 'bond_history_latest_key_checks_sc': 100,
+              'bond_history_latest_key_checks_legacy': 40, 'bond_history_legacy-then-sc': 16,
+              'bond_history_sc-then-legacy': 10, 'bond_history_legacy-then-legacy': 10, 'bond_history_sc-then-sc': 16,
+              'bond_history_store_json': 40, 'bond_history_store_merging': 20, 'bond_history_store_memory': 40,
+              'bond_history_reconnections_as-in-the-last-pairing': 80,
+              'bond_history_reconnections_swapped-since-the-last-pairing': 80},
     'thorough': {'oracle_evals': 600000, 'pairings': 25000, 'paired_both': 18000, 'failed_both': 4000,
                  'table_cells': 200, 'model_checks': 18000, 'tamper_applied': 600, 'reconnect_checks': 3000,
                  'wire_commit_checks': 18000, 'spec_key_checks': 18000, 'authenticated_flag_checks': 50000,
@@ -95,7 +123,14 @@ MIN_EVENTS = {
                  'security_request_table_cells': 2000, 'hardware_prompt_checks': 90000, 'think_time_cases': 14000,
                  'late_refusal_cases': 3500, 'refusal_with_late_peer_cases': 900, 'late_honest_answers_paired': 9000,
                  'answers_given_after_think_time': 20000, 'not_encrypted_after_failure_checks': 8000,
-                 'further_attempts_on_same_connection': 4500},
+                 'further_attempts_on_same_connection': 4500,
+                 'bond_history_cases': 720, 'bond_history_pairings': 1600, 'bond_history_reconnect_checks': 1200,
+                 'bond_history_shared_key_checks': 1200, 'bond_history_latest_key_checks_sc': 800,
+                 'bond_history_latest_key_checks_legacy': 320, 'bond_history_legacy-then-sc': 128,
+                 'bond_history_sc-then-legacy': 80, 'bond_history_legacy-then-legacy': 80, 'bond_history_sc-then-sc': 128,
+                 'bond_history_store_json': 320, 'bond_history_store_merging': 160, 'bond_history_store_memory': 320,
+                 'bond_history_reconnections_as-in-the-last-pairing': 640,
+                 'bond_history_reconnections_swapped-since-the-last-pairing': 640},
 }
 CASE_TIMEOUT = 180
 
@@ -360,6 +395,39 @@ def plan(tier, seed):
                                            attempts=[{'answers': a} for a in seq[1:]],
                                            delay=rng2.choice([0, 0, 1, 3]), think=[rng2.choice([0, 0, 0, 1.0, -5]), 0],
                                            ikd=[3, 3], rkd=[3, 3]))
+    # (9) bond HISTORIES on one store: legacy then SC, SC then legacy, re-pair with another key distribution, link
+    #     roles swapped between the pairings, SMP initiated by the link Peripheral; on a merging store (the real
+    #     JsonKeyStore on a temp file, the check's serialising store with the same merge), a replacing one, and one of
+    #     each; then a reconnection in both role assignments
+    mode_seqs = [(False, True), (True, False), (False, False), (True, True), (False, True, False), (True, False, True)]
+    stores = [['json', 'json'], ['merging', 'merging'], ['memory', 'memory'], ['json', 'memory'], ['serialising', 'merging']]
+    hrng = random.Random(S ^ 0x9C13)
+    hidx = 0
+    for _rep in range(1 if tier == 'quick' else 8):
+        for seq in mode_seqs:
+            for swap in (False, True):
+                for store in stores:
+                    if 'merging' in store and not seq[-1]:
+                        # the check's own merging store keeps EVERY field of the older record (plain dict.update): next to
+                        # a newer SC LTK the legacy slots are dead weight for a correct stack, but a stale SC LTK next to
+                        # newer legacy keys is the store's doing, not bumble's. Histories that end in a legacy bond run on
+                        # bumble's own stores only.
+                        continue
+                    for order in (['same', 'swapped'], ['swapped', 'same']):
+                        ps = []
+                        hidx += 1
+                        for j, sc in enumerate(seq):
+                            # key distribution by enumeration (the classes a history reaches do not depend on the seed):
+                            # the first bond distributes everything (or EncKey both ways), the later ones in turn only
+                            # from the responder, only from the initiator, everything, EncKey only
+                            kd = ('both' if hidx % 2 else 'enc-only') if j == 0 else \
+                                ['responder-only', 'initiator-only', 'both', 'enc-only'][(hidx // 2 + j) % 4]
+                            ps.append({'sc': sc, 'central': (j % 2) if swap else 0,
+                                       'initiator': 'peripheral' if (hidx // 3 + j) % 4 == 3 else 'central',
+                                       'kd': kd,
+                                       'model': hrng.choice(['jw', 'jw', 'passkey', 'numeric'] if sc else ['jw', 'jw', 'passkey'])})
+                        cases.append({'kind': 'bondhist', 'seed': nxt(), 'pairings': ps, 'store': store,
+                                      'reconnect': order, 'delay': hrng.choice([0, 0, 1, 3])})
     return cases
 
 
@@ -603,10 +671,54 @@ class World:
             async def update(self, name, keys):
                 await super().update(name, PairingKeys.from_dict(_json.loads(_json.dumps(keys.to_dict()))))
 
-        self.serialising = self.rng.random() < 0.4
-        r.ev('serialising_store_cases' if self.serialising else 'memory_store_cases')
+        class MergingSerialisingStore(SerialisingStore):
+            """...and that MERGES an update into the record it already holds for that peer, field by field of the
+            JSON form, the way bumble.keys.JsonKeyStore.update does (written here: dict.update of the two dicts)."""
+
+            async def update(self, name, keys):
+                old = self.all_keys.get(name)
+                merged = dict(_json.loads(_json.dumps(old.to_dict()))) if old is not None else {}
+                merged.update(_json.loads(_json.dumps(keys.to_dict())))
+                self.all_keys[name] = PairingKeys.from_dict(merged)
+
+        from bumble.keys import JsonKeyStore
+
+        class FileStore(JsonKeyStore):
+            """The real JsonKeyStore on a file of its own; `all_keys` lets the harness look at the file."""
+
+            @property
+            def all_keys(self):
+                try:
+                    with open(self.filename, encoding='utf-8') as f:
+                        db = _json.load(f)
+                except FileNotFoundError:
+                    return {}
+                return {n: PairingKeys.from_dict(k) for n, k in db.get(self.namespace, {}).items()}
+
+        self.tmpdir = None
+        kinds = None
+        if case.get('store'):
+            # bond histories name the store of each device: json (JsonKeyStore on a temp file), merging (the
+            # check's serialising store with JsonKeyStore's merge), memory, serialising (both replace)
+            kinds = case['store']
+            self.serialising = False
+            for k in set(kinds):
+                r.ev(f'bond_history_store_{k}')
+        else:
+            self.serialising = self.rng.random() < 0.4
+            r.ev('serialising_store_cases' if self.serialising else 'memory_store_cases')
         for i, d in enumerate(rg.devices):
-            d.keystore = SerialisingStore() if self.serialising else MemoryKeyStore()
+            if kinds is None:
+                d.keystore = SerialisingStore() if self.serialising else MemoryKeyStore()
+            elif kinds[i] == 'json':
+                import os
+                import tempfile
+                if self.tmpdir is None:
+                    self.tmpdir = tempfile.mkdtemp(prefix='verif-c13-keys-')
+                d.keystore = FileStore(ADDRS[i], os.path.join(self.tmpdir, f'keys{i}.json'))
+            else:
+                d.keystore = {'merging': MergingSerialisingStore, 'serialising': SerialisingStore,
+                              'memory': MemoryKeyStore}[kinds[i]]()
             irk = bytes(self.rng.randrange(256) for _ in range(16))
             d.irk = irk
             self.irks.append(irk)
@@ -627,6 +739,26 @@ class World:
         rg.on_hci_logged.append(self.on_logged)
         self.tamper_hits = 0
         return self
+
+    def reconfigure(self, sub):
+        """Another pairing of the same two devices with another configuration (bond histories): same people,
+        fresh screens, new delegates and PairingConfigs."""
+        from bumble.pairing import PairingConfig
+        self.case = sub
+        self.users.begin(sub)
+        self.configs = []
+        for i, d in enumerate(self.rg.devices):
+            delegate = make_delegate(self.users, i, sub['io'][i], sub['ikd'][i], sub['rkd'][i])
+            cfg = PairingConfig(sc=sub['sc'][i], mitm=sub['mitm'][i], bonding=sub['bonding'][i], delegate=delegate,
+                                identity_address_type=PairingConfig.AddressType.RANDOM, oob=None)
+            self.configs.append(cfg)
+            d.pairing_config_factory = lambda connection, _c=cfg: _c
+
+    def cleanup(self):
+        if getattr(self, 'tmpdir', None):
+            import shutil
+            shutil.rmtree(self.tmpdir, ignore_errors=True)
+            self.tmpdir = None
 
     def spy_class(self, i):
         """Session subclass that only records the instances (observation of the method each
@@ -853,7 +985,8 @@ async def one_pairing(w, case, r, conns, k, prev, last):
             return ('raised', f'{type(e).__name__}: {e}')
 
     r.ev('pairings')
-    r.ev(f'pairings_initiated_by_link_{"peripheral" if C == 1 else "central"}')
+    lc = getattr(w, 'link_central', 0)       # device 0 is the link Central unless a bond history says otherwise
+    r.ev(f'pairings_initiated_by_link_{"peripheral" if C != lc else "central"}')
     r.evals()
     hang = False
     if case['start'] == 'security-request':
@@ -973,7 +1106,7 @@ async def one_pairing(w, case, r, conns, k, prev, last):
             f'prompts still open; answers given afterwards: refusals={users.refusals}; {desc}')
     # nobody is asked for something its declared IO capability cannot do (Vol 3 Part H Tables 2.3-2.5)
     r.ev('hardware_prompt_checks', len(users.calls[C]) + len(users.calls[P]))
-    link_role = {0: 'link-central', 1: 'link-peripheral'}
+    link_role = {lc: 'link-central', 1 - lc: 'link-peripheral'}
     for i, hw in users.hw:
         r.bad(f'pairing/prompt-impossible-for-io/{hw}/{mode}/{"initiator" if i == C else "responder"}-is-{link_role[i]}',
               f'device {i} ({IO_NAME[case["io"][i]]}, SMP {"initiator" if i == C else "responder"}, {link_role[i]}) was asked to '
@@ -1057,6 +1190,7 @@ async def one_pairing(w, case, r, conns, k, prev, last):
             check_wire_commitments(w, an, r, mode, exp_model, obs_model, roles, users, paired, desc)
 
     # ---- success: encryption, keys, flags -----------------------------------------
+    w.last_an, w.last_mode, w.last_spec_ltk = an, mode, None
     if paired:
         check_success(w, an, r, mode, obs_model, exp_model, conns, stores, outcome, desc, tampered)
     sample_roles = {'initiator': roles[C], 'responder': roles[P]}
@@ -1174,6 +1308,7 @@ def check_success(w, an, r, mode, obs_model, exp_model, conns, stores, outcome, 
             d = w.scalars[C] if not case.get('oob') else w.oob_scalars[C]
             ref = rs.sc_keys(d, an, addr_le, ra, rb)
             if ref is not None:
+                w.last_spec_ltk = ref['ltk']
                 r.ev('spec_key_checks')
                 r.check(key == ref['ltk'], 'pairing/ltk-not-spec/sc',
                         f'central encrypted with {key.hex()}, f5(DHKey, Na, Nb, A, B) = {ref["ltk"].hex()}; {desc}')
@@ -1182,6 +1317,10 @@ def check_success(w, an, r, mode, obs_model, exp_model, conns, stores, outcome, 
                             'pairing/dhkey-check-not-spec/sc',
                             f'Ea/Eb on the wire {an.dhkey_checks.get(0, b"").hex()}/{an.dhkey_checks.get(1, b"").hex()} '
                             f'!= f6(...) {ref["ea"].hex()}/{ref["eb"].hex()}; {desc}')
+    if getattr(w, 'rebond', False):
+        # a further bond on a store that already holds one for this peer: what the record looks like slot by slot
+        # depends on the store (replace / merge); what it YIELDS is judged by the reconnections of the bond history
+        return
     # --- stores -------------------------------------------------------------------
     ident = {C: ADDRS[C], P: ADDRS[P]}
     rec = {}
@@ -1393,6 +1532,208 @@ async def reconnect(w, an, r, mode, conns, steps, desc):
 
 
 # =============================================================================
+# Bond histories on one store
+# =============================================================================
+KD_CLASSES = {'both': ([7, 7], [7, 7]), 'responder-only': ([2, 7], [7, 7]), 'initiator-only': ([7, 7], [2, 7]),
+              'enc-only': ([1, 1], [1, 1])}
+
+
+def bondhist_sub(case, p):
+    """case descriptor of pairing p = {'sc', 'central', 'initiator', 'kd', 'model'} of a history.
+    ikd / rkd are per DEVICE [dev0, dev1]; the SMP initiator offers (ikd, rkd), the responder masks them."""
+    C = p['central'] if p['initiator'] == 'central' else 1 - p['central']
+    ikd_c, rkd_c = KD_CLASSES[p['kd']]       # [initiator's view, responder's view]
+    ikd = [0, 0]
+    rkd = [0, 0]
+    ikd[C], ikd[1 - C] = ikd_c[0], ikd_c[1]
+    rkd[C], rkd[1 - C] = rkd_c[0], rkd_c[1]
+    io = {'jw': [rs.NO_INPUT_NO_OUTPUT] * 2, 'passkey': [rs.KEYBOARD_DISPLAY, rs.KEYBOARD_ONLY],
+          'numeric': [rs.DISPLAY_YES_NO, rs.KEYBOARD_DISPLAY]}[p['model']]
+    return _base('bondhist', case['seed'], io=io, sc=[p['sc'], p['sc']] if p.get('sc_other') is None else
+                 [p['sc'], p['sc_other']], mitm=[p['model'] != 'jw'] * 2, ikd=ikd, rkd=rkd, delay=case['delay'],
+                 acl=case.get('acl', 27), initiator='central' if C == p['central'] else 'peripheral')
+
+
+def history_class(pairings):
+    modes = ['sc' if p['sc'] and p.get('sc_other') in (None, True) else 'legacy' for p in pairings]
+    cls = '-then-'.join(modes)
+    if len({p['central'] for p in pairings}) > 1:
+        cls += '/link-roles-swapped-between-pairings'
+    return cls
+
+
+async def bond_history_case(case, r: R):
+    """Several bonds of the same two devices, one after the other on the same key stores (each on a connection of
+    its own, possibly with the link roles swapped and another key distribution), then a reconnection in both role
+    assignments: the central's LE Enable Encryption command (snooped) and the peripheral host's answer to that
+    EDIV / Rand (asked by the harness) must carry one key, and it must be the key of the LATEST bond: LTK =
+    f5(...) recomputed from the wire of the last pairing (SC), or the LTK the device that is now the Peripheral
+    distributed in the last pairing, with its EDIV / Rand (legacy)."""
+    pairings = case['pairings']
+    first = bondhist_sub(case, pairings[0])
+    first['store'] = case['store']
+    w = await World().start(first, r)
+    try:
+        await _bond_history(w, case, r)
+    finally:
+        w.cleanup()
+
+
+async def _bond_history(w, case, r: R):
+    rg, users = w.rg, w.users
+    pairings = case['pairings']
+    hcls = history_class(pairings)
+    store_cls = 'merging-store' if any(k in ('json', 'merging') for k in case['store']) else 'replacing-store'
+    if len(set(case['store'])) > 1:
+        store_cls = 'stores-differ'
+    r.ev('bond_history_cases')
+    r.ev(f'bond_history_{hcls.split("/")[0]}')
+    conns = None
+    latest = None
+    for j, p in enumerate(pairings):
+        sub = bondhist_sub(case, p)
+        if conns is not None:
+            try:
+                await vloop.vwait(conns[w.link_central].disconnect())
+            except vloop.Hang:
+                r.bad('hang/reconnect/disconnect', f'disconnect pending; {describe(sub)}')
+                return
+            except Exception:
+                pass
+            await rg.quiesce()
+        w.reconfigure(sub)
+        w.rebond = j > 0
+        w.link_central = p['central']
+        try:
+            cc, pc = await rg.connect_le(p['central'], 1 - p['central'])
+        except vloop.Hang:
+            r.bad('hang/reconnect/connect/bond-history', f'connection for pairing {j + 1} pending; {describe(sub)}')
+            return
+        await rg.quiesce()
+        conns = {p['central']: cc, 1 - p['central']: pc}
+        w.handle_of = {p['central']: cc.handle, 1 - p['central']: pc.handle}
+        w.C = p['central'] if p['initiator'] == 'central' else 1 - p['central']
+        w.P = 1 - w.C
+        w.outcome = {0: [], 1: []}
+
+        def on_paired(i, keys):
+            w.outcome[i].append(('paired', keys))
+            if users.pending[i]:
+                users.premature.append((i, list(users.pending[i])))
+
+        for i in (0, 1):
+            conns[i].on('pairing', lambda keys, _i=i: on_paired(_i, keys))
+            conns[i].on('pairing_failure', lambda reason, _i=i: w.outcome[_i].append(('failed', int(reason))))
+        rr = r if j == 0 else Suffixed(r, f'/rebond-after-{latest["mode"]}')
+        res = await one_pairing(w, sub, rr, conns, 0, None, last=False)
+        r.ev('bond_history_pairings')
+        if res != 'paired':
+            r.ev('bond_history_pairing_not_completed')
+            return
+        prev_mode = latest['mode'] if latest else None
+        latest = {'mode': w.last_mode, 'C': w.C, 'an': w.last_an, 'spec_ltk': w.last_spec_ltk, 'desc': describe(sub)}
+    # ---- reconnections in both role assignments --------------------------------------------------
+    an = latest['an']
+    hist = (f'bond history {hcls} on stores {case["store"]}: ' + '; '.join(
+        f'#{j + 1} {"SC" if p["sc"] and p.get("sc_other") in (None, True) else "legacy"} central=dev{p["central"]} SMP initiator=link '
+        f'{p["initiator"]} kd={p["kd"]} {p["model"]}' for j, p in enumerate(pairings)))
+    central = w.link_central
+    for n, step in enumerate(case['reconnect']):
+        try:
+            await vloop.vwait(conns[central].disconnect())
+        except vloop.Hang:
+            r.bad('hang/reconnect/disconnect', f'disconnect pending; {hist}')
+            return
+        except Exception:
+            pass
+        await rg.quiesce()
+        central = pairings[-1]['central'] if step == 'same' else 1 - pairings[-1]['central']
+        peripheral = 1 - central
+        roles = 'as-in-the-last-pairing' if central == pairings[-1]['central'] else 'swapped-since-the-last-pairing'
+        try:
+            cc, pc = await rg.connect_le(central, peripheral)
+        except vloop.Hang:
+            r.bad(f'hang/reconnect/connect/bond-history', f'reconnection pending; {hist}')
+            return
+        await rg.quiesce()
+        conns = {central: cc, peripheral: pc}
+        w.handle_of = {central: cc.handle, peripheral: pc.handle}
+        # the key of the LATEST bond for this direction
+        if latest['mode'] == 'sc':
+            want = (latest['spec_ltk'], bytes(8), 0)
+        else:
+            role_then = 0 if peripheral == latest['C'] else 1      # SMP role of today's Peripheral in the last pairing
+            d = an.distributed[role_then]
+            want = (d['ltk'], d.get('rand'), d.get('ediv')) if 'ltk' in d else None
+        mark = len(rg.hci_log)
+        nprov = len(w.provider_answers)
+        err = None
+        # class of the case: the kind of the last bond, the kind of the bond it replaced, how the stores treat an update
+        # (the role assignment of the reconnection is in the detail text: a wrong key shows in both)
+        key = f'{latest["mode"]}-after-{prev_mode}/{store_cls}'
+        try:
+            await vloop.vwait(cc.encrypt())
+        except vloop.Hang:
+            r.bad(f'hang/reconnect/encrypt/bond-history/{key}', f'encrypt() pending after {vloop.T_V} virtual s; {hist}')
+            return
+        except asyncio.CancelledError:
+            raise
+        except Exception as e:
+            err = f'{type(e).__name__}: {e}'
+        await rg.quiesce()
+        cmds = rs.le_enable_encryption_commands(rg.hci_log[mark:], dev=central)
+        ans = w.provider_answers[nprov:]
+        r.ev('bond_history_reconnections')
+        r.ev(f'bond_history_reconnections_{roles}')
+        stores_txt = {i: [(n_, {f: key_fields(getattr(k_, f)) for f in ('ltk', 'ltk_central', 'ltk_peripheral')
+                                 if getattr(k_, f) is not None}) for n_, k_ in store_keys(rg.devices[i])] for i in (0, 1)}
+        where = (f'reconnection {n + 1} (central=dev{central}, {roles.replace("-", " ")}); {hist}; stores now: {stores_txt}; '
+                 f'last pairing: {latest["desc"]}')
+        if want is None:
+            # the last bond has no key for this direction: the central must not end up encrypting under a key the
+            # peripheral would not answer with
+            r.ev('bond_history_no_key_for_direction')
+            if cmds and cmds[0][2] is not None and ans:
+                k = ans[0][4]
+                same = isinstance(k, (bytes, bytearray)) and bytes(k) == cmds[0][5]
+                r.check(same or err is not None, f'reconnect/bond-history/encrypts-without-key-from-the-last-bond/{key}',
+                        f'the last bond distributed no LTK for this direction, yet the central sent LE Enable Encryption '
+                        f'with {cmds[0][5].hex()} (ediv={cmds[0][4]}) and the peripheral would answer '
+                        f'{k.hex() if isinstance(k, (bytes, bytearray)) else k}; {where}')
+            continue
+        r.ev('bond_history_reconnect_checks')
+        if not r.check(err is None and len(cmds) == 1 and cmds[0][2] == cc.handle,
+                       f'reconnect/bond-history/encrypt-failed/{key}',
+                       f'encrypt() -> {err}; {len(cmds)} LE Enable Encryption commands; {where}'):
+            continue
+        _seq, _d, _h, rand, ediv, ltk = cmds[0]
+        r.ev('provider_queries', len(ans))
+        if not ans:
+            r.bad('reconnect/harness/no-provider-answer', f'provider not asked; {where}')
+            continue
+        k = ans[0][4]
+        kb = bytes(k) if isinstance(k, (bytes, bytearray)) else None
+        r.ev('bond_history_shared_key_checks')
+        r.check(kb == ltk, f'reconnect/bond-history/keys-differ/{key}',
+                f'the central encrypts with {ltk.hex()} ediv={ediv} rand={rand.hex()}; the peripheral host answers that '
+                f'request with {kb.hex() if kb is not None else k}; key of the last bond for this direction: '
+                f'{want[0].hex() if want[0] else None}; {where}')
+        if want[0] is not None:
+            r.ev('bond_history_latest_key_checks')
+            r.ev(f'bond_history_latest_key_checks_{latest["mode"]}')
+            r.check(ltk == want[0] and (latest['mode'] == 'sc' or (rand == want[1] and ediv == want[2])),
+                    f'reconnect/bond-history/not-the-key-of-the-last-bond/central/{key}',
+                    f'the central encrypts with {ltk.hex()} ediv={ediv} rand={rand.hex()}; the last bond gives '
+                    f'{want[0].hex()} ediv={want[2]} rand={want[1].hex() if want[1] is not None else None}; {where}')
+            if kb is not None and kb == ltk and ltk != want[0]:
+                r.ev('bond_history_both_sides_on_an_older_key')
+        r.check(cc.is_encrypted and pc.is_encrypted, f'reconnect/bond-history/not-encrypted/{key}', where)
+    r.sig('bondhist', hcls, tuple(case['store']), tuple(case['reconnect']),
+          tuple((p['kd'], p['model'], p['initiator']) for p in pairings))
+    r.sample = {'kind': 'bondhist', 'history': hist, 'reconnections': case['reconnect']}
+
+
+# =============================================================================
 # CTKD over BR/EDR
 # =============================================================================
 async def ctkd_case(case, r: R):
@@ -1482,6 +1823,8 @@ async def run_case(case, r: R):
     rs_selftest()
     if case['kind'] == 'ctkd':
         await ctkd_case(case, r)
+    elif case['kind'] == 'bondhist':
+        await bond_history_case(case, r)
     else:
         await le_case(case, r)
 
@@ -1511,7 +1854,10 @@ LEVEL_TEXT = ('Two real bumble devices pair over the virtual LE link: all 5x5x{l
               'Key per association model, reconnection in same and swapped roles after bonding, OOB and SMP over BR/EDR; '
               'the whole table again with the link Peripheral as SMP initiator and via Security Request, with delegates '
               'that refuse what their IO capability cannot do; every answer of every model given late (seconds / loop '
-              'turns) by either user; further pairings on the same connection after a failed or a completed one. '
+              'turns) by either user; further pairings on the same connection after a failed or a completed one; bond '
+              'histories (2-3 bonds of different kinds, link roles kept or swapped, different key distributions) on one '
+              'pair of stores (JsonKeyStore on a file, a merging serialising store, MemoryKeyStore, mixed) followed by a '
+              'reconnection in both role assignments that must use one shared key, the latest bond\'s. '
               'Oracles: both-sides outcome agreement bounded in virtual time; no completion while the own user still looks '
               'at a prompt, no encrypted link and an unchanged key store after a refusal; no prompt the IO capability cannot '
               'serve; association model from delegate-call logs (by SMP role) and '
